@@ -472,6 +472,7 @@ pub fn judge<K: Kind>(h: &History) -> Judged {
         let expect_err = broken || ill_formed_now;
         if rl.is_err() != expect_err {
             let class = if expect_err { if broken { "not-sticky" } else { "ill-formed-accepted" } } else { "well-formed-rejected" };
+            v.push(Violation::new("C14", format!("{}:linearizability", class), format!("event {} ({:?}): linearizability tester returned {:?}", i, e, rl)));
             v.push(Violation::new("C08", class, format!("event {} ({:?}): linearizability tester returned {:?}, expected {}", i, e, rl, if expect_err { "Err" } else { "Ok" })));
         }
         if rs.is_err() != expect_err {
@@ -482,6 +483,8 @@ pub fn judge<K: Kind>(h: &History) -> Judged {
             broken = true;
             if lin.is_consistent() || lin.serialized_history().is_some() {
                 v.push(Violation::new("C08", "not-sticky", format!("after ill-formed event {} the linearizability tester still reports consistent", i)));
+                // C14 states it for both testers
+                v.push(Violation::new("C14", "not-sticky:linearizability", format!("after ill-formed event {} the linearizability tester still reports consistent", i)));
             }
             if sc.is_consistent() || sc.serialized_history().is_some() {
                 v.push(Violation::new("C14", "not-sticky", format!("after ill-formed event {} the sequential-consistency tester still reports consistent", i)));
